@@ -130,11 +130,12 @@ def run_config(chk, config):
         why = "the Length back-patch is not the single, last writer operation of ControlMessage::write"
         if good:
             _, wid, (plen, pdesc), off, site, okpre, Wat = pats[0]
-            good = eng.ent(st, c_eq(off.lin, W0 + 2)) and plen == Lin.const(2) and pdesc[0] == "be" and isinstance(pdesc[1], VInt) and pdesc[2] == 2
+            be = layout.as_be(eng, st, pdesc)
+            good = eng.ent(st, c_eq(off.lin, W0 + 2)) and plen == Lin.const(2) and be is not None and be[1] == 2
             why = "patch is not a 16-bit big-endian value at offset 2 of the message (%r at %r)" % (pdesc, off.lin)
             if good:
-                good = eng.ent(st, c_eq(pdesc[1].lin, total)) and eng.ent(st, c_eq(Wat, wr.W))
-                why = "patched Length %r is not the %r octets emitted" % (pdesc[1].lin, total)
+                good = eng.ent(st, c_eq(be[0], total)) and eng.ent(st, c_eq(Wat, wr.W))
+                why = "patched Length %r is not the %r octets emitted" % (be[0], total)
         chk.oblig(good, "ctrl-length | ControlMessage::write", "ControlMessage::write: %s" % why,
                   {"rule": "Length = W_end - W_start, 16 bits big-endian, patched at the placeholder", "path": st.notes()[-6:]},
                   {"obligation": "control Length field = octets emitted", "emitted": repr(total)})
